@@ -104,7 +104,12 @@ theorem bal_probHead (pop : Option Var) : Bal (probHead pop) := by
   cases pop with
   | none => exact Bal.tok (by simp) (by simp) (by simp) (by simp)
   | some v =>
-    have := Bal.bracket (bal_var v)
+    have hp : Bal (Print.pop v) := by
+      unfold Print.pop
+      split
+      · exact Bal.tok (by simp) (by simp) (by simp) (by simp)
+      · exact bal_var v
+    have := Bal.bracket hp
     exact Bal.cons (by simp) (by simp) (by simp) (by simp) (by simpa [probHead] using this)
 
 theorem bal_prob (pop : Option Var) (c p : List Var) : Bal (prob pop c p) := by
